@@ -109,6 +109,10 @@ func init() {
 		i.freeze(a[0])
 		return nil
 	})
+	registerIntrinsic(rtPkg+"Thaw", func(i *interpreter, fr *frame, fn *ssa.Function, a []value) value {
+		i.thaw(a[0])
+		return nil
+	})
 	registerIntrinsic(rtPkg+"Ite", func(i *interpreter, fr *frame, fn *ssa.Function, a []value) value {
 		// generic Ite[T](c bool, a, b T) T
 		switch c := a[0].(type) {
